@@ -33,7 +33,7 @@ REQUIRED_MONITORS = ["pinhole_converges", "slit_length_converges", "slit_width_c
 REQUIRED_BUCKETS = {"quick": ["geom:pinhole", "geom:slit(L,0)", "geom:slit(0,W)", "geom:slit(L,W)", "geom:2d",
                               "f:poly", "f:lorentz2", "f:dampedcos", "window_crosses_zero", "acc:low", "acc:med",
                               "acc:high", "acc:xhigh", "q<W", "sigma:interior-point-widest", "pixel_on_axis", "q_calc:without-data-points", "pixel_with_one_zero_width", "coordinates_rewritten_after_construction", "calculator:copy", "calculator:deepcopy", "calculator:pickle",
-                              "caller-arrays-reused-before-first-apply", "slit:per-point-arrays", "route:data-object-with-some-zero-widths"]}
+                              "caller-arrays-reused-before-first-apply", "slit:per-point-arrays", "route:data-object-with-some-zero-widths", "q_calc:partly-refined", "q_calc:geometric"]}
 REQUIRED_BUCKETS["thorough"] = REQUIRED_BUCKETS["quick"]
 
 
@@ -146,6 +146,20 @@ def run_1d(case, rec):
         h = h0*mult
         n = int(math.ceil((hi - lo)/h)) + 8
         grid = lo - 3*h + h*np.arange(n + 6)
+        if (case["k"]//7) % 3 == 1:
+            # a calculation grid that is not equally spaced: refined threefold over part of the range (bound stated for
+            # the coarse spacing h)
+            a_, b_ = sorted(rng.uniform(lo, hi, 2))
+            fine = np.arange(a_, b_, h/3.0)
+            grid = np.unique(np.concatenate([grid, fine]))
+            if mult == 1:
+                rec.bucket("q_calc:partly-refined")
+        elif (case["k"]//7) % 3 == 2 and lo - 3*h > 0:
+            # geometric spacing with ratio chosen so that the largest step equals h
+            r_ = 1.0 + h/(hi + 3*h)
+            grid = (lo - 3*h)*r_**np.arange(int(math.log((hi + 6*h)/(lo - 3*h))/math.log(r_)) + 2)
+            if mult == 1:
+                rec.bucket("q_calc:geometric")
         if lo - 3*h <= 0 and geom != "pinhole":
             grid = grid[grid > 0.02*float(q[0])*1.01] if False else grid[grid > 0]
         if include_q:
